@@ -447,3 +447,84 @@ def rule_roles(S, res):
                 res.bad("R8.dual", "fabitn|ot-order", "the two parties of a pair do not run the OT sessions in mirrored order (arms: %s): both would wait in the same role" % arms, where(b, snd[0]))
     if not found:
         res.bad("R8.dual", "fabitn|ot-order", "cannot locate the sequenced sender/receiver OT sessions of fabitn (they must not run concurrently on one untagged channel)")
+
+
+def rule_burst(S, res):
+    """R8.burst: with channels that buffer (at least) one message, a party that both sends and receives a
+    message kind in one exchange sends at most one message per peer before it starts receiving: a send
+    site inside a loop whose peer does not change with the loop (several messages to the same peer) is
+    only allowed where sender and receiver are different roles (the garbler streams chunks while the
+    evaluator is receiving them).  Otherwise both sides block on their second message."""
+    from an import construction_chain
+    fg = S.fg
+    eng = {k for k, b in engine_bodies(fg)}
+    sites = [s for s in S.inv.direct_sites() if s.bk in eng]
+    n = 0
+    bad = 0
+
+    def lifted(site):
+        """[(body key, block)] of the site itself and of the closure constructions enclosing it"""
+        out = [(site.bk, site.block)]
+        for (pk, pbi, _si) in construction_chain(fg, site.bk):
+            out.append((pk, pbi))
+        return out
+
+    def exclusive(a, c):
+        la, lc = lifted(a), lifted(c)
+        for (ka, ba) in la:
+            for (kc, bc) in lc:
+                if ka != kc:
+                    continue
+                b = fg.bodies[ka]
+                for bi, blk in enumerate(b.blocks):
+                    t = blk["t"]
+                    if t["k"] != "switch":
+                        continue
+                    tg = list(dict.fromkeys([tb for _v, tb in t["ts"]] + [t["else"]]))
+                    da = [x for x in tg if b.edge_dominates(bi, x, ba)]
+                    dc = [x for x in tg if b.edge_dominates(bi, x, bc)]
+                    if da and dc and not (set(da) & set(dc)):
+                        return True
+        return False
+    for s in sites:
+        kind, snd, rcv, ver = PRIMS[s.prim]
+        if not snd or rcv:
+            continue
+        b = s.body
+        loops = [body for h, body in S.loops(b) if s.block in body]
+        if not loops:
+            continue
+        body = min(loops, key=len)
+        peer = s.term["args"][1]
+        if peer["k"] == "const":
+            continue
+        back = fg.backward(fg.operand_nodes(s.bk, peer), node_ok=lambda x: x[0] == s.bk, edge_ok=lambda e: e.kind in ("copy", "ref", "cast", "base2field", "field2whole"))
+        locs = {x[1] for x in back}
+        varies = False
+        for bi in body:
+            blk = b.blocks[bi]
+            for st in blk["s"]:
+                if st["k"] == "assign" and not st["p"]["pr"] and st["p"]["l"] in locs and st["r"]["k"] != "ref":
+                    src = st["r"].get("o")
+                    if st["r"]["k"] == "use" and src and src["k"] != "const" and src["p"]["l"] in locs and not src["p"]["pr"]:
+                        continue
+                    varies = True
+            t = blk["t"]
+            if t["k"] == "call" and t["d"]["l"] in locs:
+                varies = True
+        if varies:
+            continue
+        n += 1
+        lab = "/".join(s.label or ["?"])
+        partners = [r for r in sites if PRIMS[r.prim][2] and r.body.owner == b.owner and set(r.label or []) & set(s.label or [])]
+        inst = "%s|%s" % (b.owner.rsplit("::", 1)[-1], lab)
+        same_role = [r for r in partners if not exclusive(s, r)]
+        if same_role:
+            bad += 1
+            res.bad("R8.burst", inst, "several %r messages are sent to the same peer in a loop, and the same party also receives %r in this exchange without being in a different role branch: both sides send their second message before either receives, which blocks for good on channels that buffer one message" % (lab, lab), fl(s.sp),
+                    key="R8.burst|%s|%s" % (b.owner.rsplit("::", 1)[-1], lab))
+        else:
+            res.ok("R8.burst", inst, fl(s.sp), "a stream of messages to one peer; the receiving side is a different role (exclusive branch)")
+    res.count("streaming_send_sites", n)
+    if not bad and not n:
+        res.ok("R8.burst", "engine", "", "no send site repeats inside a loop for the same peer")
